@@ -49,6 +49,7 @@ def handle (st : DrvState) (line : String) : DrvState × String :=
   | "eui.new" :: rest => (st, handleEui rest)
   | "join.tx" :: rest => (st, handleJoinTx rest)
   | "join.rx" :: rest => (st, handleJoinRx rest)
+  | "join.enc" :: rest => (st, handleJoinEnc rest)
   | op :: rest =>
     if op.startsWith "gw." then
       let (g, out) := handleGw st.gw (op :: rest)
